@@ -85,11 +85,14 @@ def work(task):
         out["sources"] = {k: v for k, v in E.sources.items()}
         # translator self-check, interpreter side: re-run each collected model all-concretely
         conc = []
-        for inp in res["models"]:
+        for k, inp in enumerate(res["models"]):
             try:
-                conc.append(run_concrete(E, fn, task.get("args", []), inp))
+                c = run_concrete(E, fn, task.get("args", []), inp)
             except (Unsupported, Inconclusive) as e:
-                conc.append({"status": "engine:unsupported", "note": str(e), "observations": []})
+                c = {"status": "engine:unsupported", "note": str(e), "observations": []}
+            so = res.get("sym_obs", [])
+            c["sym_obs"] = so[k] if k < len(so) else None
+            conc.append(c)
         out["concrete"] = conc
     except (Unsupported, Inconclusive) as e:
         out.update({"status": "unsupported", "note": f"{type(e).__name__}: {e}", "violations": [], "models": [],
@@ -403,6 +406,10 @@ def execute(prop, tier, seed):
                 mdl, conc = payload
                 run.selfcheck_runs += 1
                 ok = nat.get("status") == "ok" and conc.get("status") == "ok" and nat.get("observations") == conc.get("observations")
+                if ok and conc.get("sym_obs") is not None and conc["sym_obs"] != nat.get("observations"):
+                    # the symbolic run's own values, evaluated under the path model, must equal what the real code produced
+                    ok = False
+                    conc = dict(conc, status="symbolic-observation-differs", observations=conc["sym_obs"])
                 if ok:
                     run.native_validated += 1
                     witnesses[name] = witnesses.get(name, 0) + 1
